@@ -155,7 +155,7 @@ func checkC05(sc *Scenario) *CheckResult {
 	for _, d := range headerDiff("request header", wantReq, view.Header, false) {
 		res.violate("request_header", "c05:request", "%s", d)
 	}
-	if view.ReadErr != "" || len(view.Msgs) < len(out.Sent.Msgs) {
+	if requestFailed(view, out) {
 		res.class("request_failed")
 		return res
 	}
